@@ -29,17 +29,19 @@ def replay():
     from eko import msbar_masses, beta, gamma
     from scipy import integrate
     out = []
+    def err(nf, order, a0, a1):
+        b = [beta.beta_qcd((2 + k, 0), nf) for k in range(order)]
+        g = [gamma.gamma(k + 1, nf) for k in range(order)]
+        # reference: the RGE with the coefficients kept at this order, integrated numerically
+        val, _ = integrate.quad(lambda a: sum(g[k] * a**k for k in range(order)) / (a * sum(b[k] * a**k for k in range(order))), a0, a1, epsabs=1e-15, epsrel=1e-13)
+        return abs(msbar_masses.ker_expanded(a0, a1, (order, 0), nf) / np.exp(val) - 1)
     for nf in (3, 4, 5, 6):
         for order in (1, 2, 3, 4):
-            for a0, a1 in ((0.03, 0.015), (0.012, 0.02)):
-                b = [beta.beta_qcd((2 + k, 0), nf) for k in range(order)]
-                g = [gamma.gamma(k + 1, nf) for k in range(order)]
-                # reference: the RGE with the coefficients kept at this order, integrated numerically; the expanded kernel must agree up to the dropped order a^order
-                val, _ = integrate.quad(lambda a: sum(g[k] * a**k for k in range(order)) / (a * sum(b[k] * a**k for k in range(order))), a0, a1, epsabs=1e-13, epsrel=1e-12)
-                ref = np.exp(val)
-                got = msbar_masses.ker_expanded(a0, a1, (order, 0), nf)
-                tol = 40 * max(a0, a1) ** order
-                if abs(got / ref - 1) > tol: out.append(f"nf={nf} order={order} a0={a0} a1={a1}: ker_expanded {got} vs RGE solution {ref} (relative {got/ref-1:.2e} > {tol:.1e})")
+            for a0, a1 in ((0.004, 0.002), (0.002, 0.004)):
+                # the expanded kernel solves the RGE up to the dropped order: the difference is O(a^order), i.e. shrinks by 2^order when both couplings are halved
+                e1, e2 = err(nf, order, a0, a1), err(nf, order, a0 / 2, a1 / 2)
+                if e2 > e1 / 2 ** (order - 0.5) + 1e-11 or e1 > 5 * (20 * max(a0, a1)) ** order:
+                    out.append(f"nf={nf} order={order} a0={a0} a1={a1}: ker_expanded differs from the RGE solution by {e1:.2e}, and by {e2:.2e} at half the couplings (must fall by 2^{order})")
             if abs(msbar_masses.ker_expanded(0.02, 0.02, (order, 0), nf) - 1) > 1e-14: out.append(f"nf={nf} order={order}: ker(a, a) != 1")
     return bool(out), "; ".join(out[:4]) if out else "ker_expanded agrees with the numerically integrated mass RGE to the working order"
 '''
